@@ -193,7 +193,7 @@ COMMON_ASSUME = ["Kani/CBMC/CaDiCaL verdicts", "the KFS model (harness/kfs.rs): 
                  "every #[kani::stub] listed in harness/kfs.rs::kfs_harness is part of the claim"]
 RELY = "rely/guarantee: between any two calls of the operation the shared directories move to any state other participants' protocol steps can produce"
 
-prop("C01", ["proto_glue", "plain_get_env", "raw_insert_or_update_basic", "raw_insert_or_touch_basic", "raw_ops_sanity_twin"],
+prop("C01", ["stack_gou_glue", "proto_glue", "plain_get_env", "raw_insert_or_update_basic", "raw_insert_or_touch_basic", "raw_ops_sanity_twin"],
      ["plain_set_env", "plain_put_env", "sharded_get_01", "sharded_set_absent_env", "stack_get_w1r1_nock", "stack_set_temp_w1r1", "plain_set_seq", "plain_put_seq"],
      outside=["byte-granular reads (values are abstracted to content ids; 'complete' is set only by the last write)", "NFS close-to-open semantics", "peers that violate the protocol"], assumptions=COMMON_ASSUME + [RELY])
 prop("C02", ["proto_glue", "raw_insert_or_update_basic", "raw_insert_or_touch_basic", "c02_cleanup_temp_by_age", "c02_cleanup_temp_missing_dir", "raw_apply_update_evict_a_moveback_b", "raw_ops_sanity_twin"],
